@@ -396,13 +396,27 @@ class World:
             name = self.unnames.get(rel, rel)
         return name
 
+    def leave_one(self):
+        """end of a `with job:` block.  The working directory is outside the model; that the block restores it is
+        recorded (self.cwd_leaks) and repaired here: a state point change inside the block makes Job.close() forget
+        the saved directory (_initialize_lazy_properties resets _cwd) - reported in notes/C03.md."""
+        job, here = self.entered.pop()
+        try:
+            job.close()
+        except Exception:  # noqa: BLE001
+            pass
+        try:
+            now = os.getcwd()
+        except OSError:
+            now = None
+        if now != here:
+            self.cwd_leaks = getattr(self, "cwd_leaks", 0) + 1
+            os.chdir(here)
+
     def leave_all(self):
         """close every `with job:` block that is still open (end of a case)"""
         while self.entered:
-            try:
-                self.entered.pop().close()
-            except Exception:  # noqa: BLE001
-                pass
+            self.leave_one()
 
     def real(self, name):
         return self.names.get(name, name)
@@ -607,12 +621,13 @@ class World:
             if k == "Enter":
                 # `with job:` - Job.open(): init(validate_statepoint=False) and chdir into the job directory (model: OEnter);
                 # left again by the harness-only Exit
+                here = os.getcwd()
                 H[op[1]].open()
-                self.entered.append(H[op[1]])
+                self.entered.append((H[op[1]], here))
                 return ["unit"]
             if k == "Exit":
                 if self.entered:
-                    self.entered.pop().close()
+                    self.leave_one()
                 return None
             if k == "Sp":
                 return ["json", typed(to_plain(H[op[1]].statepoint()))]
